@@ -490,6 +490,13 @@ def s_ite(c, a, b):
         return tuple(s_ite(c, x, y) for x, y in zip(a, b))
     if isinstance(a, Maybe) or isinstance(b, Maybe) or a is None or b is None:
         return Maybe.ite(c, a, b)
+    if getattr(a, '_is_float', False) or getattr(b, '_is_float', False):
+        from .lib.floats import sfloat_ite
+        return sfloat_ite(c, a, b)
+    if hasattr(a, '_ite_with'):
+        return a._ite_with(c, b, True)
+    if hasattr(b, '_ite_with'):
+        return b._ite_with(c, a, False)
     za, zb = zany(a), zany(b)
     if za.sort() != zb.sort():
         if za.sort() == z3.RealSort() and zb.sort() == z3.IntSort():
@@ -551,8 +558,16 @@ def resolve_maybe(x):
 
 def s_eq(a, b):
     """Python ``==`` on possibly symbolic values, returns bool | SBool."""
+    if isinstance(a, Maybe) and b is None:
+        return a.none
+    if isinstance(b, Maybe) and a is None:
+        return b.none
     if isinstance(a, Maybe) or isinstance(b, Maybe):
         a, b = resolve_maybe(a), resolve_maybe(b)
+    if hasattr(a, '_eq') and not isinstance(a, type):
+        return a._eq(b)
+    if hasattr(b, '_eq') and not isinstance(b, type):
+        return b._eq(a)
     if is_sym(a):
         return a.__eq__(b)
     if is_sym(b):
